@@ -118,9 +118,8 @@ func ruleCodecAgreement(w *World, r *Run, rule string) {
 			// (b) the body is assembled in a bytes.Buffer / strings.Builder: the ordered writes are the leaves
 			if len(leaves) < 3 {
 				var buf *Term
-				if body != nil && body.Kind == "call" && (strings.HasSuffix(body.Name, ".Bytes") || strings.HasSuffix(body.Name, ".String")) {
-					buf = body.Args[1]
-				}
+				// (a body that is sb.String() / buf.Bytes() is read as a template below: the builder's writes in order)
+				viaTemplate := body != nil && body.Kind == "call" && (strings.HasSuffix(body.Name, ".Bytes") || strings.HasSuffix(body.Name, ".String"))
 				for _, p := range calls(s, "(*net/http.Client).Post", "net/http.NewRequest", "net/http.NewRequestWithContext") {
 					for _, a0 := range p.Args {
 						if a0 != nil && a0.Kind == "alloc" && strings.Contains(typeStr(a0.Typ), "Buffer") {
@@ -128,7 +127,7 @@ func ruleCodecAgreement(w *World, r *Run, rule string) {
 						}
 					}
 				}
-				if buf != nil {
+				if buf != nil && !viaTemplate {
 					leaves = nil
 					for _, ev := range s.Events {
 						if ev.Kind != "call" || ev.Recv != buf {
@@ -382,6 +381,10 @@ func ruleUnmarshalTotal(w *World, r *Run, rule string) {
 			ok := anySub(d.Args[0], func(t *Term) bool {
 				return t.Kind == "indexaddr" && t.Args[1].Kind == "const" && t.Args[1].Name == fmt.Sprint(i)
 			})
+			// … or the line cut off by the i-th Cut of a walk over the text (line, rest, _ = strings.Cut(rest, "\n"))
+			if cuts := calls(s, "strings.Cut", "bytes.Cut"); !ok && i < len(cuts) && mentions(d.Args[0], res(cuts[i], 0)) {
+				ok = true
+			}
 			r.Check(ok, "C11.d", fnUnmarshal+" | line i decoded into element i", w.pos(d.Pos), "decode #"+fmt.Sprint(i)+" reads "+short(d.Args[0].String()))
 		}
 	}
